@@ -12,8 +12,9 @@ trap 'git -C /repo worktree remove --force "$W" >/dev/null 2>&1; rm -rf "$W"' EX
 build_and_demo() {  # $1 = label
   cmake -S "$W" -B "$W/_build" -G Ninja -DCMAKE_BUILD_TYPE=RelWithDebInfo >/dev/null 2>&1
   cmake --build "$W/_build" >"$W/build.$1.log" 2>&1 || { echo "BUILD-FAILED($1)"; tail -5 "$W/build.$1.log"; return 1; }
+  cmake --build "$W/_build" --target examples >>"$W/build.$1.log" 2>&1 || { echo "EXAMPLES-BUILD-FAILED($1)"; tail -5 "$W/build.$1.log"; return 1; }
   g++ -std=c++11 -O1 -g -I"$W/include" -I"$W/external" "$SD/demo.cpp" "$W/_build/src/libgdstk.a" "$W/_build/external/libclipper.a" -lz -lqhull_r -o "$W/demo.$1" >"$W/demo.$1.log" 2>&1 || { echo "DEMO-BUILD-FAILED($1)"; tail -5 "$W/demo.$1.log"; return 1; }
-  (cd "$W" && timeout 120 ./demo.$1 >"$W/demo.$1.out" 2>&1); echo "demo($1) exit=$?"
+  mkdir -p "$W/out"; (cd "$W" && timeout 120 ./demo.$1 >"$W/demo.$1.out" 2>&1); echo "demo($1) exit=$? $(tail -1 "$W/demo.$1.out" | cut -c1-160)"
 }
 echo "== without the change"; build_and_demo base
 git -C "$W" apply "$SD/patch.diff" || { echo "PATCH-DOES-NOT-APPLY"; exit 2; }
